@@ -1,5 +1,5 @@
-// Correspondence driver for matrix multiplication (property C15): main program, dense and fixed-size operands.
-// Protocol and output format: see drv_matmul.h.  Special-matrix operand kinds live in drv_matmul_s*.cpp.
+// Correspondence driver for matrix multiplication (property C15): main program and dense operands.
+// Protocol and output format: see drv_matmul.h.  Fixed-size operands: drv_matmul_f*.cpp; special matrices: drv_matmul_s*.cpp.
 #include "drv_matmul.h"
 namespace mm {
 verif::SpyStack* g_stack = 0;
@@ -10,24 +10,6 @@ bool build_group_dense(const Spec& s, XVisitor& v) {
   return true;
 }
 
-#define FM_CASE(R, C) if (r == R && c == C) { if (act) build_FM1<true, R, C>(s, v); else build_FM1<false, R, C>(s, v); return true; }
-#define FV_CASE(N) if (n == N) { if (act) build_FV1<true, N>(s, v); else build_FV1<false, N>(s, v); return true; }
-bool build_group_fixed(const Spec& s, XVisitor& v) {
-  const Words& h = s.head;
-  if (h[0] != "FM" && h[0] != "FV") return false;
-  if (h.size() < 3 || (h[1] != "a" && h[1] != "p")) throw BadOp();
-  bool act = h[1] == "a";
-  if (h[0] == "FM") {
-    long r, c; if (h.size() != 4 || !to_long(h[2], r) || !to_long(h[3], c)) throw BadOp();
-    FM_CASE(1, 1) FM_CASE(1, 3) FM_CASE(3, 1) FM_CASE(2, 2) FM_CASE(2, 3) FM_CASE(3, 2) FM_CASE(3, 3)
-    FM_CASE(2, 5) FM_CASE(5, 3) FM_CASE(5, 5) FM_CASE(5, 8) FM_CASE(8, 5) FM_CASE(8, 8) FM_CASE(1, 8) FM_CASE(8, 1)
-    throw BadOp();
-  } else {
-    long n; if (h.size() != 3 || !to_long(h[2], n)) throw BadOp();
-    FV_CASE(1) FV_CASE(2) FV_CASE(3) FV_CASE(5) FV_CASE(8)
-    throw BadOp();
-  }
-}
 } // namespace mm
 
 int main() {
@@ -57,8 +39,9 @@ int main() {
       else throw BadOp();
       XVisitor vis(w[0] == "P", x_left, x_left ? rs : ls, out);
       const Spec& xs = x_left ? ls : rs;
-      bool done = build_group_dense(xs, vis) || build_group_fixed(xs, vis) || build_group_sq(xs, vis)
-               || build_group_symtri(xs, vis) || build_group_band_r(xs, vis) || build_group_band_c(xs, vis);
+      bool done = build_group_dense(xs, vis) || build_group_fixed_p(xs, vis) || build_group_fixed_a(xs, vis)
+               || build_group_s1(xs, vis) || build_group_s2(xs, vis) || build_group_s3(xs, vis)
+               || build_group_s4(xs, vis) || build_group_s5(xs, vis) || build_group_s6(xs, vis);
       if (!done) throw BadOp();
       std::cout << out.text << "\n";
     } catch (const BadOp&) {
